@@ -2,7 +2,9 @@
 after edits (index maintenance).  Cell contents, the probe key, the lookup template and the edit are holes."""
 import sys, functools
 from numbers import Number
+import os
 import common, enumrun, docfix as F, bundles as B
+QUICK = os.environ.get("VERIF_TIER", "quick") != "thorough"
 
 SPECS = [("", None), ("order_by='N'", ("N",)), ("order_by='-N'", ("-N",)), ("order_by=('S','-N')", ("S", "-N")), ("order_by=None", ()),
          ("sort_by='N'", "SORTBY:N"), ("sort_by='-S'", "SORTBY:-S"), ("order_by='id'", "ID"), ("order_by=('S','id')", "S,ID"),
@@ -11,7 +13,9 @@ KEYS = [("K=$Q", lambda row, q: row["K"] == q), ("K=$Q, S='a'", lambda row, q: r
         ("CL=CONTAINS($Q)", lambda row, q: isinstance(row["CL"], list) and q in row["CL"][1:]),
         ("CL=CONTAINS($Q, match_empty='')", lambda row, q: (isinstance(row["CL"], list) and q in row["CL"][1:]) or (row["CL"] in (None, ['L']) and q == '')),
         # an Any-typed key column whose cells may hold unhashable (list) values: such a row matches no text probe
-        ("A=$Q", lambda row, q: row["A"] == q)]
+        ("A=$Q", lambda row, q: row["A"] == q),
+        # a formula key column whose cell is an error where N is 0: an error cell equals no key
+        ("KF=$Q", lambda row, q: row["KF"] == q)]
 AKEY = 4
 AV = ["x", "y", ["L", "x"], 1]
 KV = ["x", "y", ""]
@@ -23,19 +27,25 @@ EDITS = [None, ("UpdateRecord", "D", 1, {"K": "y"}), ("UpdateRecord", "D", 3, {"
          ("UpdateRecord", "D", 2, {"manualSort": 0.5}), ("UpdateRecord", "D", 3, {"S": "c"}), ("UpdateRecord", "D", 1, {"K": "x"}),
          ("BulkUpdateRecord", "D", [1, 2], {"N": [5, 5]}),
          ("UpdateRecord", "D", 3, {"A": ["L", "a", "x"]}), ("UpdateRecord", "D", 1, {"A": ["L", "x"]}), ("UpdateRecord", "D", 1, {"A": "x"}),
-         ("BulkUpdateRecord", "D", [1, 3], {"A": [["L", "x"], {"a": 1}]})]
+         ("BulkUpdateRecord", "D", [1, 3], {"A": [["L", "x"], {"a": 1}]}),
+         # the importer's wholesale replacement: rows that disappear, rows that stay with other contents, new rows
+         ("ReplaceTableData", "D", [1, 5], {"K": ["x", "x"], "S": ["a", "b"], "N": [4, 1], "CL": [["L", "x"], None], "A": ["x", "y"]}),
+         ("ReplaceTableData", "D", [], {}), ("ReplaceTableData", "D", [2, 3, 4], {"K": ["x", "y", "x"], "S": ["b", "a", "a"], "N": [1, 1, 0]})]
 warm_up = B.warm_up
-_base = []
+_base = {}
 
 
-def base():
-  if not _base:
+def base(ki):
+  if ki not in _base:
     d = F.Doc(replica=False)
     d.apply(["AddTable", "D", [{"id": "K", "type": "Text", "isFormula": False}, {"id": "S", "type": "Text", "isFormula": False},
                                {"id": "N", "type": "Int", "isFormula": False}, {"id": "CL", "type": "ChoiceList", "isFormula": False},
-                               {"id": "A", "type": "Any", "isFormula": False}]])
+                               {"id": "A", "type": "Any", "isFormula": False},
+                               {"id": "KF", "type": "Any", "isFormula": True, "formula": "$K if $N != 0 else 1/0"}]])
     cols = [{"id": "Q", "type": "Text", "isFormula": False}]
     for i, (k, _) in enumerate(KEYS):
+      if i != ki:
+        continue                     # one document per key shape: only its 20 lookup formulas are evaluated per run
       for j, (s, _) in enumerate(SPECS):
         args = ", ".join(x for x in (k, s) if x)
         cols.append({"id": "F%d_%d" % (i, j), "type": "Any", "isFormula": True, "formula": "list(D.lookupRecords(%s).id)" % args})
@@ -43,8 +53,8 @@ def base():
     d.apply(["AddTable", "P", cols])
     d.apply(["BulkAddRecord", "D", [None] * 3, {"K": ["x", "y", "x"], "S": ["a", "a", "b"], "N": [1, 2, 3], "CL": [None, None, None], "A": ["x", "y", "x"]}])
     d.apply(["BulkAddRecord", "P", [None] * 3, {"Q": ["x", "y", ""]}])
-    _base.append(F.Saved(d))
-  return _base[0]
+    _base[ki] = F.Saved(d)
+  return _base[ki]
 
 
 def lt(a, b):
@@ -93,14 +103,20 @@ def check(d, ki):
       exp = expected(rows, pred, q, spec)
       g = got[1:] if isinstance(got, list) and got and got[0] == 'L' else got
       if g != exp:
-        return "lookupRecords(%s%s) with Q=%r returned %s, a filter + stable sort gives %s (rows %s)" % (k, ", " + s if s else "", q, g, exp, rows)
+        tag = ""
+        if isinstance(g, list) and all(isinstance(x, int) for x in g) and not (set(exp) - set(g)):
+          byid = {r["id"]: r for r in rows}
+          extra = [x for x in g if x not in exp]
+          if extra and all(x in byid and isinstance(byid[x].get("KF"), list) and byid[x]["KF"][:1] == ["E"] for x in extra) and k.startswith("KF="):
+            tag = "[only rows whose key cell is an error are returned in excess] "
+        return "%slookupRecords(%s%s) with Q=%r returned %s, a filter + stable sort gives %s (rows %s)" % (tag, k, ", " + s if s else "", q, g, exp, rows)
       if got1 != (exp[0] if exp else 0):
         return "lookupOne(%s%s) with Q=%r returned %s, expected %s" % (k, ", " + s if s else "", q, got1, exp[0] if exp else 0)
   return None
 
 
 def judge(ki, cells, ei):
-  d = base().restore()
+  d = base(ki).restore()
   try:
     d.apply(["BulkUpdateRecord", "D", [1, 2, 3], cells])
   except Exception as ex:
@@ -124,11 +140,13 @@ def make_body(shard):
   ki, ei = shard
 
   def body(h):
-    cells = {"K": [h.choice("k%d" % i, KV) for i in range(2)] + ["x"],
-             "S": ["a", h.choice("s1", SV), h.choice("s2", SV)],
-             "N": [h.choice("n%d" % i, NV) for i in range(2)] + [2],
-             "CL": ([h.choice("cl%d" % i, CLV) for i in range(2)] if ki != AKEY else [None, None]) + [["L", "x"]],
-             "A": ([h.choice("a%d" % i, AV) for i in range(2)] if ki == AKEY else ["x", "y"]) + ["x"]}
+    # the cells of the column(s) the key shape reads are holes, the others are fixed (S and N feed the order specifications)
+    cl_shape, a_shape = ki in (2, 3), ki == AKEY
+    cells = {"K": ([h.choice("k%d" % i, KV) for i in range(2)] if not (cl_shape or a_shape) else ["x", "y"]) + ["x"],
+             "S": ["a", h.choice("s1", SV), "b" if QUICK else h.choice("s2", SV)],
+             "N": [h.choice("n%d" % i, NV[:3] if QUICK else NV) for i in range(2)] + [2],
+             "CL": ([h.choice("cl%d" % i, CLV[:4] if QUICK else CLV) for i in range(2)] if cl_shape else [None, None]) + [["L", "x"]],
+             "A": ([h.choice("a%d" % i, AV) for i in range(2)] if a_shape else ["x", "y"]) + ["x"]}
     msg, ok = judge(ki, cells, ei)
     w = {"key": ki, "cells": cells, "edit": ei}
     return {"nontrivial": ok, "violations": ([{"msg": msg, "witness": w}] if msg else []), "sample": w}
@@ -136,8 +154,10 @@ def make_body(shard):
 
 
 def SHARDS(tier):
-  cap = 35.0 if tier == "quick" else 400.0
-  return [((ki, ei), cap) for ki in range(len(KEYS)) for ei in range(len(EDITS))]
+  cap = 30.0 if tier == "quick" else 400.0
+  # quick: the edits that each exercise a different index-maintenance path; thorough: all of them
+  edits = [0, 1, 2, 3, 4, 5, 6, 9, 10, 12, 14, 16] if tier == "quick" else range(len(EDITS))
+  return [((ki, ei), cap) for ki in range(len(KEYS)) for ei in edits]
 
 
 def replay(w):
